@@ -1471,9 +1471,16 @@ namespace ipr {
       void visit(const Forall& t) final
       { pp << xpr_type_expr(t); }
 
+      void visit(const Decltype& t) final
+      { pp << xpr_type_expr(t); }
+
       void visit(const Type& t) final
       {
          // FIXME: Check.
+         // A type that has no printer of its own is denoted by its name -- unless that name
+         // is just the type-id of the type itself, which would bring us back here forever.
+         if (auto id = util::view<Type_id>(t.name()); id != nullptr and physically_same(id->type_expr(), t))
+            Missing_overrider{ }(t);
          pp << xpr_name(t.name());
       }
 
